@@ -32,10 +32,11 @@ type freeList struct {
 }
 
 type poolStats struct {
-	BufGets, BufPuts, BufReuse int
-	BufDropped                 int
-	MaxReleasedCap             int
-	CompGets, CompReuse        int
+	BufGets, BufPuts, BufReuse  int
+	BufDropped                  int
+	MaxReleasedCap              int
+	CompGets, CompReuse         int
+	DoublePutBuf, DoublePutComp int // the same object handed back while it is still in the pool
 }
 
 type pools struct {
@@ -130,6 +131,16 @@ func (p *pools) give(owner any, kind int, v any) bool {
 	l := p.find(owner, kind)
 	if l == nil || l.n-l.head >= poolSlots-1 || l.n >= 1<<30 {
 		return false
+	}
+	for i := l.head; i < l.n; i++ {
+		if l.items[i%poolSlots] == v {
+			if kind == 2 {
+				p.stats.DoublePutBuf++
+			} else {
+				p.stats.DoublePutComp++
+			}
+			break
+		}
 	}
 	idx := l.n
 	l.items[idx%poolSlots] = v
